@@ -30,6 +30,13 @@ pub struct Case {
     /// 3 replace_obsolete, 4 extend by a term, 5 child_nodes, 6 continue on the with_replaced_obsolete copy
     #[serde(default)]
     pub ops: Vec<(u8, u16)>,
+    /// when non-empty: the ontology's modifier roots are replaced (through `modifier_mut()`) by the
+    /// terms these picks select; the categories stay as built
+    #[serde(default)]
+    pub custom_modifier: Vec<u16>,
+    /// when non-empty: the categories are replaced (through `categories_mut()`) likewise
+    #[serde(default)]
+    pub custom_categories: Vec<u16>,
 }
 
 pub fn default_path() -> PathSel {
@@ -109,7 +116,7 @@ fn cmp_set_ids(s: &HpoSet, want: &BTreeSet<u32>, before: &BTreeSet<u32>, m: &Mod
 }
 
 pub fn check(c: &Case, stats: &mut Stats) -> CheckResult {
-    let ont = match build_path(&c.facts, c.path, &JaxNoise::default()) {
+    let mut ont = match build_path(&c.facts, c.path, &JaxNoise::default()) {
         Ok(o) => o,
         Err(e) => return fail(format!("construct/{}", c.path.name()), e),
     };
@@ -117,8 +124,21 @@ pub fn check(c: &Case, stats: &mut Stats) -> CheckResult {
     stats.count(&format!("path:{}", c.path.name()), 1);
     let members: BTreeSet<u32> = c.members.iter().copied().collect();
     ensure!(members.iter().all(|t| m.has(*t)), "harness/bad-case", "members must be terms");
-    let mods = m.default_modifier().unwrap_or_default();
-    let cats = m.default_categories().unwrap_or_default();
+    let mut mods = m.default_modifier().unwrap_or_default();
+    let mut cats = m.default_categories().unwrap_or_default();
+    // user-defined modifier roots / categories (any terms of the ontology)
+    if !c.custom_modifier.is_empty() {
+        mods = c.custom_modifier.iter().map(|p| m.ids[pick(*p, m.ids.len())]).collect();
+        let g = ont.modifier_mut();
+        *g = mods.iter().map(|t| HpoTermId::from_u32(*t)).collect();
+        stats.label("custom-modifier-roots");
+    }
+    if !c.custom_categories.is_empty() {
+        cats = c.custom_categories.iter().map(|p| m.ids[pick(*p, m.ids.len())]).collect();
+        let g = ont.categories_mut();
+        *g = cats.iter().map(|t| HpoTermId::from_u32(*t)).collect();
+        stats.label("custom-categories");
+    }
     let group: HpoGroup = c.members.iter().map(|t| HpoTermId::from_u32(*t)).collect();
     let set = HpoSet::new(&ont, group.clone());
     stats.eval(12);
@@ -251,13 +271,15 @@ fn strategy(tier: Tier) -> BoxedStrategy<Case> {
     let cfg = GenCfg::small().terms(2, max).recs(6).standard().with_flags(true).names(NameMode::Plain);
     // large sets: more members than an id group stores inline (30)
     let big = GenCfg::small().terms(44, 72).recs(3).standard().with_flags(false).names(NameMode::Plain);
-    let mk = |(facts, picks, path, ops): (Facts, Vec<u16>, PathSel, Vec<(u8, u16)>)| {
+    let mk = |(facts, picks, path, (ops, custom_modifier, custom_categories)): (Facts, Vec<u16>, PathSel, (Vec<(u8, u16)>, Vec<u16>, Vec<u16>))| {
         let ids: Vec<u32> = facts.terms.iter().map(|t| t.id).collect();
         let members = picks.iter().map(|p| ids[pick(*p, ids.len())]).collect();
-        Case { facts, members, path, ops }
+        Case { facts, members, path, ops, custom_modifier, custom_categories }
     };
     // half of the cases drive one set object through 1-8 operations
-    let ops = || prop_oneof![1 => Just(Vec::new()), 1 => vec((0u8..7, any::<u16>()), 1..=8)];
+    // one case in five replaces the modifier roots, one in five the categories, by arbitrary terms
+    let custom = || prop_oneof![4 => Just(Vec::new()), 1 => vec(any::<u16>(), 1..=3)];
+    let ops = move || (prop_oneof![1 => Just(Vec::new()), 1 => vec((0u8..7, any::<u16>()), 1..=8)], custom(), custom());
     let paths = || prop_oneof![6 => Just(PathSel::Bin(3)), 2 => Just(PathSel::Bin(2)), 1 => Just(PathSel::Bin(1)), 2 => Just(PathSel::Jax), 1 => Just(PathSel::JaxT), 1 => Just(PathSel::RoundTrip), 1 => Just(PathSel::BuilderDefaults)];
     prop_oneof![
         12 => (gen::facts(cfg), vec(any::<u16>(), 0..12), paths(), ops()).prop_map(mk),
@@ -271,7 +293,7 @@ impl Property for C13 {
         "C13"
     }
     fn rule(&self) -> String {
-        "Generated: ontologies (built with defaults through own v1/v2/v3 bytes, as_bytes round trip, JAX files or the Builder, so categories and modifier roots are defined) with obsolete terms, replacements pointing to existing terms (members, non-members, the term itself) and to ids that are not terms (then only len / contains are observed), modifier branches and records of all kinds; member sets of 0-12 terms drawn with repetition (empty sets, ancestors together with descendants), one case in 13 with 44-72 terms and 30-90 picks (more than the 30 members an id group stores inline). Oracle on the reference model: child_nodes = members without a member among their descendants; without_modifier/remove_modifier drop exactly members that are or descend from a modifier root; without_obsolete/remove_obsolete drop exactly flagged members; with_replaced_obsolete/replace_obsolete map exactly the members naming a replacement (collisions shrink the set); gene/omim/orpha id sets = unions over members; categories() = per-category member counts; information_content gene/omim = -ln(|union|/N) (0 rule; 1e-5); each in-place method equals its copying twin; len/is_empty/contains/get/iter/Extend agree with the member set; copying methods leave the set untouched. Half of the cases additionally drive ONE set object through 1-8 operations (read aggregates / remove_modifier / remove_obsolete / replace_obsolete / extend / child_nodes / continue on a copy), comparing members and all aggregates with the model after every step (state kept inside the object between calls). evaluations = set operations. Non-trivial = set contains an ancestor/descendant pair, an obsolete and a replaced member; distinct by hash of the case.".into()
+        "Generated: ontologies (built with defaults through own v1/v2/v3 bytes, as_bytes round trip, JAX files or the Builder, so categories and modifier roots are defined) with obsolete terms, replacements pointing to existing terms (members, non-members, the term itself) and to ids that are not terms (then only len / contains are observed), modifier branches and records of all kinds; in one case of five each the modifier roots / the categories are replaced through modifier_mut() / categories_mut() by arbitrary terms; member sets of 0-12 terms drawn with repetition (empty sets, ancestors together with descendants), one case in 13 with 44-72 terms and 30-90 picks (more than the 30 members an id group stores inline). Oracle on the reference model: child_nodes = members without a member among their descendants; without_modifier/remove_modifier drop exactly members that are or descend from a modifier root; without_obsolete/remove_obsolete drop exactly flagged members; with_replaced_obsolete/replace_obsolete map exactly the members naming a replacement (collisions shrink the set); gene/omim/orpha id sets = unions over members; categories() = per-category member counts; information_content gene/omim = -ln(|union|/N) (0 rule; 1e-5); each in-place method equals its copying twin; len/is_empty/contains/get/iter/Extend agree with the member set; copying methods leave the set untouched. Half of the cases additionally drive ONE set object through 1-8 operations (read aggregates / remove_modifier / remove_obsolete / replace_obsolete / extend / child_nodes / continue on a copy), comparing members and all aggregates with the model after every step (state kept inside the object between calls). evaluations = set operations. Non-trivial = set contains an ancestor/descendant pair, an obsolete and a replaced member; distinct by hash of the case.".into()
     }
     fn assumptions(&self) -> Vec<String> {
         vec!["replacements name existing terms (a set holding an id that is not a term is outside the documented domain of HpoSet)".into()]
@@ -283,7 +305,7 @@ impl Property for C13 {
         }
     }
     fn required_labels(&self, _tier: Tier) -> Vec<&'static str> {
-        vec!["nontrivial", "members>30", "empty-set", "ancestor-and-descendant-members", "replacement-collides-with-member", "modifier-member", "modifier-root-member", "replaced-but-not-obsolete-member", "sequence:mutation-after-aggregate-read", "members>255", "replacement-names-an-id-that-is-not-a-term"]
+        vec!["nontrivial", "members>30", "empty-set", "ancestor-and-descendant-members", "replacement-collides-with-member", "modifier-member", "modifier-root-member", "replaced-but-not-obsolete-member", "sequence:mutation-after-aggregate-read", "members>255", "replacement-names-an-id-that-is-not-a-term", "custom-modifier-roots", "custom-categories"]
     }
     fn run_generated(&self, tier: Tier, seed: u64, n: u64, stats: &mut Stats) -> Option<(Value, Failure)> {
         run_typed(strategy(tier), seed, n, stats, check)
@@ -298,7 +320,7 @@ impl Property for C13 {
             let ids: Vec<u32> = facts.terms.iter().map(|t| t.id).collect();
             let members: Vec<u32> = (0..v.3 as usize).map(|i| ids[(i * 5 + i / 7) % ids.len()]).collect();
             let ops = vec![(0u8, 0u16), (3, 0), (0, 0), (2, 0), (0, 0), (4, 77), (1, 0), (0, 0), (5, 0), (0, 0)];
-            let c = Case { facts, members, path: PathSel::Bin(3), ops };
+            let c = Case { facts, members, path: PathSel::Bin(3), ops, custom_modifier: vec![], custom_categories: vec![] };
             let r = check(&c, stats);
             if r.is_ok() {
                 stats.label("members>255");
